@@ -4,6 +4,7 @@ mod spec;
 mod p_kmer;
 mod p_min;
 mod p_posmaps;
+mod p_reader;
 mod p_degen;
 mod p_cov;
 mod p_cgr;
@@ -91,6 +92,8 @@ fn main() {
         "c09" => p_min::c09(&o),
         "c03" => p_posmaps::c03(&o),
         "c04" => p_rows::c04(&o),
+        "c05" => p_rows::c05(&o),
+        "c06" => p_reader::c06(&o),
         "c16" => p_degen::c16(&o),
         "c08" => p_cov::c08(&o),
         "c11" => p_cgr::c11(&o),
